@@ -48,13 +48,19 @@ def _gen_seq(rng, n):
             ops.append(["dset", rng.choice(["ka", "kb", "kc"]), rng.randrange(len(VALUES))])
         elif r < 0.68:
             ops.append(["dget", rng.choice(["ka", "kb", "kc", "never"])])
-        elif r < 0.82:
-            ops.append(["call", rng.choice(["idf", "pairf", "sizef", "nilf", "tripf"]), [rng.randrange(len(VALUES)) for _ in range(3)]])
-        elif r < 0.92:
-            ops.append(["proxy", rng.choice(["idf", "pairf", "sizef", "nilf", "tripf"]), [rng.randrange(len(VALUES)) for _ in range(3)]])
+        elif r < 0.80:
+            ops.append(["call", rng.choice(["idf", "pairf", "sizef", "nilf", "tripf", "varf"]), [rng.randrange(len(VALUES)) for _ in range(3)]])
+        elif r < 0.89:
+            ops.append(["proxy", rng.choice(["idf", "pairf", "sizef", "nilf", "tripf", "varf", "varf"]), [rng.randrange(len(VALUES)) for _ in range(3)]])
+        elif r < 0.93:
+            # the server function varf is re-defined (through the connection) with another number of parameters
+            ops.append(["redef", rng.randrange(4)])
         else:
             ops.append(["symget", rng.choice(["ka", "kb"])])
     return ops
+
+
+VARF_BODIES = [("{x}", 1), ("{x,,y}", 2), ("{x,,y,,z}", 3), ("{[1 2],x}", 1)]
 
 
 def _frames_cases(tier, rng):
@@ -76,6 +82,14 @@ def cases(tier, seed):
     n = 350 if tier == "quick" else 7000
     for _ in range(n):
         out.append({"t": "seq", "ops": _gen_seq(rng, rng.randint(2, 8))})
+    # a proxy fetched, the server function re-defined with another arity, the proxy fetched again - all on one connection
+    for i in range(len(VARF_BODIES)):
+        for j in range(len(VARF_BODIES)):
+            if i != j:
+                for rep in range(1 if tier == "quick" else 6):
+                    vals = lambda: [rng.randrange(len(VALUES)) for _ in range(3)]
+                    out.append({"t": "seq", "ops": [["redef", i], ["proxy", "varf", vals()], ["redef", j], ["proxy", "varf", vals()], ["call", "varf", vals()],
+                                                    ["redef", i], ["proxy", "varf", vals()]]})
     return out
 
 
@@ -111,6 +125,7 @@ def init_shard(tier, seed):
         k_("cnt::0")
         k_("nilf::{cnt::cnt+1;cnt}")            # a nilad with a visible side effect
         k_("tripf::{x,,y,,z}")
+        k_("varf::{x}")
     import time
     ok = None
     for _ in range(100):
@@ -234,9 +249,20 @@ def _run_seq(ctx, case, res):
                 break
             if rt[0] == "ok" and canon(rt[1]) == ["U"]:
                 cnt["undefined_transported"] = cnt.get("undefined_transported", 0) + 1
+        elif t == "redef":
+            body, ar = VARF_BODIES[op[1]]
+            text = 'f("varf::%s")' % body
+            hist.append(text)
+            rc = _quiet(lambda: kl.ev(Cc, text))
+            kl.ev(T, "varf::%s" % body)
+            ctx["varf_arity"] = ar
+            cnt["server_function_redefinitions"] = cnt.get("server_function_redefinitions", 0) + 1
+            if rc[0] != "ok":
+                res["violations"].append({"sig": "redefine|raises:" + rc[1], "what": "%s raised %s" % (text, rc[1]), "detail": {"history": list(hist)}})
+                break
         elif t in ("call", "proxy"):
             fn = op[1]
-            nargs = {"pairf": 2, "nilf": 0, "tripf": 3}.get(fn, 1)
+            nargs = {"pairf": 2, "nilf": 0, "tripf": 3, "varf": ctx.get("varf_arity", 1)}.get(fn, 1)
             args = [VALUES[i] for i in op[2][:nargs]]
             if any(a[0] == "D" for a in args) and fn == "sizef":
                 pass
